@@ -274,10 +274,10 @@ fn main() {
         }
     }
 
-    // ---- a race of the current code (known finding): fast reload is switched ON by someone else
+    // ---- regression scenario of a race repaired by fix 5725511: fast reload is switched ON by someone else
     //      between prepare_and_mark_reload (which dropped the watcher because fast reload was off)
-    //      and the create-or-clear decision (which now sees fast reload on and does not run the
-    //      creator): nobody re-registers, later file changes are not noticed.
+    //      and the create-or-clear decision.  Before the fix the second read saw fast reload on and
+    //      did not run the creator: nobody re-registered, later file changes were not noticed.
     {
         use minijinja_autoreload::verif_hooks::{set_yield, Point};
         case_no += 1;
